@@ -16,6 +16,8 @@ RULE = ("assertion kind (eq, ne, lt, le, gt, ge with secret or constant second o
         "(accepted => satisfiable) and S == A (the in-circuit relation is the run-time one: same bounds, same width). "
         "Fixed-point assertions are also given non-finite float bounds (nan, inf, -inf; relation = Python float comparison). Non-trivial = window has values on both sides of R and S is neither empty nor full; distinct by "
         "(kind, parameters, field, bitlength).")
+RULE += " Extensions (seeded rounds 10-15): non-finite float bounds, plain array entries (also with errors ignored for kinds that are never accepted), arrays of different lengths, assertions after a refused float bound, assertions on outputs of divisions and of from_bits over raw wires, widths beyond 64 bits."
+
 
 
 class Kind:
